@@ -6,6 +6,9 @@ prefix and inside schema groups, and for generated schemas (random trees put int
 every suffix-path spelling x case variants x {none, value / placeholder, extension} is handed to the real HedTag /
 HedString / get_tag_entry / convert_to_form and compared with what the property says (same node, suffix verbatim,
 canonical short and long text, long/short mutually inverse and idempotent).
+Values and extensions also carry ':' in the first / a middle / the last '/'-separated piece (a colon behind the first slash
+never is a namespace separator).  History part (rt/c03_history.py): the same texts converted in bulk under schema S1, S2, S1
+again give what each schema defines (tags that moved between bundled versions), whatever was converted before.
 """
 import json
 import multiprocessing
@@ -19,6 +22,9 @@ WORKERS = 14
 BLOCK = 60                      # tags per work unit
 VALUE_SUFFIX = "/Val 7:xY"      # blank, colon, mixed case: has to come back verbatim
 PLACEHOLDER_SUFFIX = "/#"
+# values with ':' and '/' inside: a colon after the first slash of a tag is never a namespace separator, wherever it sits
+COLON_VALUES = [("value:colon-in-first-piece", "/run:01/part-2"), ("value:colon-in-middle-piece", "/a/b:2/c"),
+                ("value:colon-in-last-piece", "/a/b/c:3"), ("value:time", "/08:30"), ("value:time-then-piece", "/08:30/x")]
 EXT_TERMS = ["Ext-X9q", "Sub_zQ"]
 QUICK_TAGS_PER_SCHEMA = 250
 CASES = ("asis", "lower", "upper", "swap")
@@ -189,12 +195,15 @@ def check_tag(S, member, long_name, vocab_set, term_set, rec, stats):
             return keys
 
     if has_value_child:
-        suffixes = [("none", ""), ("value", VALUE_SUFFIX), ("placeholder", PLACEHOLDER_SUFFIX)]
+        suffixes = [("none", ""), ("value", VALUE_SUFFIX), ("placeholder", PLACEHOLDER_SUFFIX)] + COLON_VALUES
     else:
         ext = [t for t in EXT_TERMS]
         while any(x.casefold() in term_set for x in ext):       # an extension term must not be a tag of the schema
             ext = [x + "q" for x in ext]
-        suffixes = [("none", ""), ("extension", "/" + ext[0]), ("extension2", "/" + ext[0] + "/" + ext[1])]
+        suffixes = [("none", ""), ("extension", "/" + ext[0]), ("extension2", "/" + ext[0] + "/" + ext[1]),
+                    ("extension:colon-in-first-piece", "/%s:1/%s" % (ext[0], ext[1])),
+                    ("extension:colon-in-middle-piece", "/%s/%s:2/%s" % (ext[0], ext[1], ext[0])),
+                    ("extension:colon-in-last-piece", "/%s/%s:3" % (ext[0], ext[1]))]
 
     conv_memo = {}
     spellings = suffix_spellings(long_name)
@@ -229,7 +238,7 @@ def check_tag(S, member, long_name, vocab_set, term_set, rec, stats):
                     continue
                 if entry is not expected_entry or not exists:
                     clause = {"none": "C03.resolve.same_node", "value": "C03.resolve.value_node",
-                              "placeholder": "C03.resolve.value_node"}.get(kind, "C03.resolve.extension_node")
+                              "placeholder": "C03.resolve.value_node"}.get(kind.split(":")[0], "C03.resolve.extension_node")
                     if how != "asis" and _resolves(HedTag, S, ns + spelling + R, expected_entry):
                         clause = "C03.resolve.case_insensitive"
                     rec(clause, inp, None if entry is None else entry.name, expected_entry.name)
@@ -379,8 +388,10 @@ def run(w: Workload):
     import warnings
     warnings.simplefilter("ignore")
     w.rule = ("case = (schema configuration, member namespace, tag long name read from the bundled XML, index of the "
-              "suffix-path spelling, suffix kind in {none, value '%s', placeholder '/#'} for nodes with a '#' child resp. "
-              "{none, one-term extension, two-term extension} for the others); inside a case the spelling is written as is, "
+              "suffix-path spelling, suffix kind in {none, value '%s', placeholder '/#', five values with ':' in the first / a middle / "
+              "the last '/'-separated piece or written as a time 08:30} for nodes with a '#' child resp. "
+              "{none, one-term extension, two-term extension, three extensions with ':' in the first / middle / last piece} for "
+              "the others); inside a case the spelling is written as is, "
               "lower, upper and swap-case, with the namespace prefix of the member.  thorough: every tag of every "
               "configuration; quick: per member schema the 6 deepest tags, 4 roots, %d value-taking tags and random others "
               "(w.rng) up to %d, every configuration covered.  Configurations: %s + generated schemas."
@@ -407,6 +418,10 @@ def run(w: Workload):
         except Exception as ex:  # noqa
             w.fail("C03.vocabulary.equals_xml_nodes", {"schema": label}, repr(ex), "schema loads")
 
+    # history: the same texts under schema S1, S2, S1 again, in this one process (before any worker is forked)
+    from rt.c03_history import run_history
+    run_history(w, load, vocabulary)
+
     units = []
     per_config = []
     for label, spec, files, members_vocab in configs:
@@ -429,7 +444,7 @@ def run(w: Workload):
                 for _ in range(cnt - len(recs)):
                     w.fail(clause, None)
     for label, n_tags, n_all, n_cases, n_spellings in per_config:
-        w.part(label, cases=n_cases, bound="%d of %d tags x all suffix-path spellings x 3 suffix kinds x <= 4 case variants"
+        w.part(label, cases=n_cases, bound="%d of %d tags x all suffix-path spellings x 8 (value nodes) or 6 (others) suffix kinds x <= 4 case variants"
                % (n_tags, n_all), exhaustive=(n_tags == n_all), tag_texts_resolved=n_spellings)
     w.exhaustive = not w.quick
     w.not_covered += [
@@ -450,6 +465,9 @@ def replay(w: Workload, case: dict):
     import warnings
     warnings.simplefilter("ignore")
     inp = case["input"]
+    if case["clause"].startswith("C03.history") or "pair" in inp:
+        from rt.c03_history import replay_history
+        return replay_history(w, case, load, vocabulary)
     spec = inp["spec"]
     spec = tuple(spec) if isinstance(spec, list) else spec
     files = None
